@@ -227,6 +227,9 @@ class Fail(Exception):
         self.detail = detail
 
 
+_SPEC = [0]  # > 0 while a permuted (speculative) pairing is being tried: no diagnosis is derived from those
+
+
 def match_operands(match_one, pats, idxs, kind, compat=None):
     """operands in order; when that fails but a permutation of the operands matches (or is the only one whose
     operator heads are compatible with the graph's operands), the defect is the ORDER"""
@@ -237,33 +240,27 @@ def match_operands(match_one, pats, idxs, kind, compat=None):
             match_one(q, j)
         return
     except Fail as first:
-        if first.sig.startswith("tree_iso:operand-order") and getattr(first, "solid", False):
+        if _SPEC[0] > 0 or first.sig.startswith("tree_iso:operand-order") or not (2 <= len(pats) <= 3 and len(pats) == len(idxs)):
             raise
-        deeper = None
-        if 2 <= len(pats) <= 3 and len(pats) == len(idxs):
-            for perm in itertools.permutations(range(len(idxs))):
-                if list(perm) == list(range(len(idxs))):
+        ident = tuple(range(len(idxs)))
+        _SPEC[0] += 1
+        try:
+            for perm in itertools.permutations(ident):
+                if perm == ident:
                     continue
                 try:
                     for q, t in zip(pats, perm):
                         match_one(q, idxs[t])
-                except Fail as f:
-                    if f.sig.startswith("tree_iso:operand-order") and getattr(f, "solid", False):
-                        deeper = deeper or f
+                except Fail:
                     continue
-                err = Fail(f"tree_iso:operand-order:{kind}", f"operands of {kind} are emitted in the order {list(perm)}")
-                err.solid = True  # a permutation of the operands matches completely
-                raise err
-        if deeper is not None:
-            raise deeper
-        if compat is not None and 2 <= len(pats) <= 3 and len(pats) == len(idxs):
-            ident = tuple(range(len(idxs)))
-            if not all(compat(q, j) for q, j in zip(pats, idxs)):
-                good = [perm for perm in itertools.permutations(ident) if perm != ident and all(compat(q, idxs[t]) for q, t in zip(pats, perm))]
-                if len(good) == 1:
-                    raise Fail(f"tree_iso:operand-order:{kind}", f"operands of {kind} are emitted in the order {list(good[0])} (judged by their operators)")
+                raise Fail(f"tree_iso:operand-order:{kind}", f"operands of {kind} are emitted in the order {list(perm)}")
+        finally:
+            _SPEC[0] -= 1
+        if compat is not None and not all(compat(q, j) for q, j in zip(pats, idxs)):
+            good = [perm for perm in itertools.permutations(ident) if perm != ident and all(compat(q, idxs[t]) for q, t in zip(pats, perm))]
+            if len(good) == 1:
+                raise Fail(f"tree_iso:operand-order:{kind}", f"operands of {kind} are emitted in the order {list(good[0])} (judged by their operators)")
         raise first
-
 
 
 def duplicate_refs(nodes):
@@ -287,6 +284,7 @@ def _walk_patterns(p, f):
 
 def check_stablehlo(text, dump):
     """Parse the real text back and compare with the graph.  Returns (failures, stats)."""
+    _SPEC[0] = 0
     try:
         return _check_stablehlo(text, dump)
     except RecursionError:
@@ -719,6 +717,7 @@ def _target_type(ty, table):
 
 
 def check_xla(text, dump):
+    _SPEC[0] = 0
     try:
         return _check_xla(text, dump)
     except RecursionError:
